@@ -172,7 +172,11 @@ def gen(rng, tier):
             cond = _gen_cond(rng, cols, 2) if rng.random() < 0.8 else None
             q = {"proj": proj, "from": [rel] if rng.random() < 0.5 else [], "conds": [cond] if cond else []}
         elif shape < 0.5:
-            rels = rng.choice([["item"], ["item", "parse"], ["parse", "result"], ["item", "parse", "result"]])
+            rels = rng.choice([["item"], ["item", "parse"], ["parse", "result"], ["item", "parse", "result"],
+                               # relations that share a key named apart in the from-list
+                               ["item", "result", "parse"], ["parse", "result", "item"], ["item", "run", "parse"],
+                               ["run", "item", "parse"], ["run", "item", "parse", "result"], ["parse", "item"],
+                               ["result", "parse", "item"]])
             cols = [f[0] for name, fs in SCHEMA if name in rels for f in fs]
             cond = _gen_cond(rng, cols, 1) if rng.random() < 0.6 else None
             q = {"proj": ["*"], "from": rels, "conds": [cond] if cond else []}
